@@ -30,7 +30,19 @@ import (
 // which an encoder writes behind the known ones and a decoder must keep.
 
 // KindsC06 is Kinds plus the structured kind.
-var KindsC06 = append(append([]string(nil), Kinds...), "list")
+var KindsC06 = append(append([]string(nil), Kinds...), "list", "rawm")
+
+// RawM (kind "rawm") is a legacy message like Raw whose Unmarshal method MERGES: it appends to what the message
+// holds, as the Unmarshal methods of generated code do. proto.Unmarshal resets the message first, so decoding a frame
+// into a destination that already holds content still yields exactly the frame's content; a decoder that calls the
+// method directly (or merges) does not.
+type RawM struct{ B []byte }
+
+func (m *RawM) Marshal() ([]byte, error) { return append([]byte(nil), m.B...), nil }
+func (m *RawM) Unmarshal(b []byte) error { m.B = append(m.B, b...); return nil }
+func (m *RawM) Reset()                   { m.B = nil }
+func (m *RawM) String() string           { return fmt.Sprintf("rawm(%d bytes)", len(m.B)) }
+func (m *RawM) ProtoMessage()            {}
 
 // ListV is a versioned ListValue.
 type ListV struct {
